@@ -564,7 +564,18 @@ Definition env_dict_fn (sh : env_shape) : fn :=
 Definition env_reserved (sh : env_shape) : list pstr :=
   env_fixed_params
   ++ map S ["Env"; "ParseError"; "get_env"; "lookup_exact"; "MissingVars"; "add"; "cls"; "handle_err";
-            "MISSING"; "_vars"; "_name"; "_env_var"; "_var_name"; "e"; "_dotenv_values"]%string.
+            "MISSING"; "_vars"; "_name"; "_env_var"; "_var_name"; "e"; "_dotenv_values";
+            "field_names"; "fields_ordered"; "_secrets_dir_value"]%string
+  ++ [ret_type_name (S "__init__"); ret_type_name (S "dict")].
+Definition env_reserved_prefixes : list pstr := map S ["_tp_"; "_parser_"; "_dflt_"]%string.
+Definition env_name_ok (sh : env_shape) (n : pstr) : bool :=
+  negb (mem_str n (env_reserved sh)) && forallb (fun p => negb (starts_with p n)) env_reserved_prefixes.
+Definition env_names_ok (sh : env_shape) : bool := forallb (fun f => env_name_ok sh (ef_name f)) (e_fields sh).
+
+(* the generator's own identifiers in __init__ (everything except the field parameters) *)
+Definition env_own (sh : env_shape) : list pstr :=
+  env_fixed_params ++ map S ["_vars"; "_name"; "_env_var"; "_var_name"; "e"]%string
+  ++ env_closure sh ++ env_globals sh.
 
 (* ======================================================================== *)
 (* v1 engine, load: __dataclass_wizard_from_dict_<cls>__(o)                    *)
@@ -729,6 +740,32 @@ Definition v1_load_fn (sh : v1_shape) : fn :=
 (* identifiers derived from user field names in the v1 function *)
 Definition v1_field_locals (sh : v1_shape) : list pstr :=
   map (fun f => v1_field_local (vf_name f)) (v_fields sh).
+
+(* the generator's own identifiers in the v1 function: everything but the `__<field>` locals *)
+Definition v1_own (batch : list pstr) (sh : v1_shape) : list pstr :=
+  map S ["o"; "init_kwargs"; "i"; "e"; "extra_keys"; "field"; "v1"; "tp"; "f"]%string
+  ++ v1_globals ++ py_builtins ++ v1_closure sh ++ batch.
+
+(* does y have the form prefix ++ decimal digits ? *)
+Fixpoint strip_prefix (p s : pstr) : option pstr :=
+  match p, s with
+  | [], _ => Some s
+  | a :: p', b :: s' => if ascii_eqb a b then strip_prefix p' s' else None
+  | _ :: _, [] => None
+  end.
+Definition is_idx_of (p y : pstr) : bool :=
+  match strip_prefix p y with
+  | Some (c :: t) => forallb is_digit (c :: t)
+  | _ => false
+  end.
+
+(* the fixed (name-independent) identifiers of cls_asdict *)
+Definition v0d_fixed_names : list pstr :=
+  map S ["o"; "dict_factory"; "exclude"; "skip_defaults"; "result"; "paths"; "k"; "v"; "T";
+         "config"; "asdict"; "hooks"; "cls_to_asdict"; "cls_dump_fn"; "_skip_value"; "_skip_defaults_value";
+         "__pre_dict__"; "NestedDict"]%string
+  ++ [ret_type_name (S "cls_asdict")] ++ py_builtins.
+Definition v0d_index_prefixes : list pstr := map S ["_skip_"; "_default_"; "_skip_if_"]%string.
 
 (* ---- the helper-function table (name-keyed) vs the recursion guard (type-keyed) ---- *)
 (* a registration: the function generated for the type with identity `id`, stored in
